@@ -268,6 +268,48 @@ pub fn run(seed: u64, thorough: bool, out_dir: &std::path::Path, scratch: &std::
                 coq_list(&steps, |(det, att, d)| format!("({}, {}, {})", coq_list(det, |id| sblock_coq(&h, *id)), coq_list(att, |id| sblock_coq(&h, *id)), dump_coq(d))));
             let desc = json!({"stream": "history", "window": [h.cfg.window.0, h.cfg.window.1], "genesis_epoch_length": h.cfg.genesis_epoch_length, "history": h.jops,
                               "dumps": steps.iter().map(|(d, a, dmp)| json!({"detached": d, "attached": a, "store": dump_json(dmp)})).collect::<Vec<_>>()});
+            // a second, independent oracle: a fresh node that imports nothing but the final main chain;
+            // the canonical columns must be byte-identical and the verification records equal
+            {
+                let main: Vec<BlockView> = h.main_chain().iter().map(|id| h.block_by_id(*id)).collect();
+                let fresh = Node::temp(&h.consensus);
+                let mut ok = true;
+                for b in main.iter().skip(1) {
+                    if fresh.process(b).is_err() { ok = false; viol.push(json!({"what": "a fresh node refuses a block of the main chain the node under test is on", "detail": {"history": h.jops, "block": h.block_id[&b.hash()]}})); break; }
+                }
+                if ok {
+                    let raw = |n: &Node| -> BTreeMap<Vec<u8>, Vec<u8>> {
+                        let mut m = BTreeMap::new();
+                        for col in [COLUMN_CELL, COLUMN_CELL_DATA, COLUMN_CELL_DATA_HASH, COLUMN_INDEX, COLUMN_TRANSACTION_INFO, COLUMN_UNCLES] {
+                            for (k, v) in n.shared.store().get_iter(col, IteratorMode::Start) { let mut key = col.as_bytes().to_vec(); key.push(b'/'); key.extend_from_slice(&k); m.insert(key, v.to_vec()); }
+                        }
+                        m
+                    };
+                    let (a, b) = (raw(h.node()), raw(&fresh));
+                    if a != b {
+                        let first = a.iter().find(|(k, v)| b.get(*k) != Some(*v)).map(|(k, _)| hex(k)).or_else(|| b.keys().find(|k| !a.contains_key(*k)).map(|k| hex(k)));
+                        viol.push(json!({"what": "the canonical columns (cells, cell data, data hashes, number<->hash index, transaction locations, uncles) are not byte-identical to those of a fresh node that imported only the main chain",
+                                         "detail": {"history": h.jops, "first_differing_key (column/key)": first, "rows": [a.len(), b.len()]}}));
+                    }
+                    let (sa, sb) = (h.node().shared.store(), fresh.shared.store());
+                    for blk in &main {
+                        let (ea, eb) = (sa.get_block_ext(&blk.hash()), sb.get_block_ext(&blk.hash()));
+                        let same = match (&ea, &eb) {
+                            (Some(x), Some(y)) => x.verified == y.verified && x.total_difficulty == y.total_difficulty && x.total_uncles_count == y.total_uncles_count && x.txs_fees == y.txs_fees && x.cycles == y.cycles && x.txs_sizes == y.txs_sizes,
+                            _ => false,
+                        };
+                        if !same {
+                            viol.push(json!({"what": "a main-chain block's verification record (verified, total difficulty, uncle count, fees, cycles, sizes) differs from that of a fresh node that imported only the main chain", "detail": {"history": h.jops, "block": h.block_id[&blk.hash()], "here": format!("{ea:?}"), "fresh": format!("{eb:?}")}}));
+                            break;
+                        }
+                    }
+                    if sa.get_current_epoch_ext() != sb.get_current_epoch_ext() || sa.get_tip_header().map(|t| t.hash()) != sb.get_tip_header().map(|t| t.hash()) {
+                        viol.push(json!({"what": "tip header / current epoch record differ from those of a fresh node that imported only the main chain", "detail": {"history": h.jops}}));
+                    }
+                    *h.stats.entry("fresh_node_comparisons".into()).or_default() += 1;
+                }
+                fresh.stop();
+            }
             let stats = h.stats.clone();
             let key = format!("{:?}", h.jops);
             h.finish();
